@@ -2,7 +2,7 @@
    Only statements closed by [exact], their assumption audits, and non-vacuity examples. *)
 From Model Require Import Engine.
 From Spec Require Import Sem FindSpec.
-From Proofs Require Import RefineBase RefineExec Refine Attempt FindCorrect SemSound Window UnrollSem.
+From Proofs Require Import RefineBase RefineExec Refine Attempt FindCorrect SemSound Window UnrollSem ResolveOk.
 
 (* The central refinement: whenever the specification derives the ordered outcome list l for the
    resolved pattern r from state s, the VM running r's code (placed anywhere in any program that
@@ -63,6 +63,16 @@ Theorem C01_unrolling_preserves_meaning :
               outs text start defs (XLoop id mn mx fw [] b) s l.
 Proof. exact UnrollSem.unroll_sem_lemma. Qed.
 Print Assumptions C01_unrolling_preserves_meaning.
+
+(* The hypothesis [loop_ok] of the theorems above holds for EVERY pattern the generator resolves, in
+   every program (any number of commands, stored patterns referenced anywhere): atoms are
+   text-matching instructions and every loop id is a fresh number of the generator's supply.  The only
+   thing asked of the syntax tree is that `in` lists are not empty, which is all the parser builds. *)
+Theorem C01_generated_patterns_well_formed :
+  forall cs xs, Forall ResolveOk.lists_ok_c cs -> resolve_program cs init_gstate = GOk xs ->
+  Forall (fun x => match x with Some r => loop_ok r | None => True end) xs.
+Proof. intros cs xs Hl H. exact (ResolveOk.resolve_program_ok_lemma cs init_gstate xs Hl ResolveOk.init_gs_ok H). Qed.
+Print Assumptions C01_generated_patterns_well_formed.
 
 (* non-vacuity: a loop inside an alternation inside a recursive subroutine, on "aabbd":
    {'a' maybe s 'b'} = s 'd'  has the single outcome 5, and the hypotheses of C01_attempt hold *)
